@@ -54,10 +54,12 @@ package secec
 //@   fresh result0, result1
 //@
 //@ type PublicKey
+//@   public *
 //@   inv !isnil(self.point) && self.point.isValid && abs(self.point) != O
 //@   inv len(self.pointBytes) == 65 && self.pointBytes[0] == 4 && os2ip(self.pointBytes[1:33]) == lift(affx(abs(self.point))) && os2ip(self.pointBytes[33:65]) == lift(affy(abs(self.point)))
 //@
 //@ type PrivateKey
+//@   public publicKey
 //@   inv !isnil(self.scalar) && val(self.scalar) != 0 && !isnil(self.publicKey) && abs(self.publicKey.point) == smul(val(self.scalar), G)
 //@
 //@ func newPublicKeyFromPoint
@@ -97,6 +99,9 @@ package secec
 //@   fresh result0
 //@
 //@ func newPrivateKeyFromScalar
+//@   ct
+//@   declassify pt: the public key d*G is the published output
+//@   declassify call IsZero: rejecting the zero scalar reveals only that the input was invalid
 //@   props C10 C05 C18
 //@   split case val(s) == 0
 //@   ensures val(s) == 0 ==> result0 == nil && result1 != nil
@@ -106,6 +111,7 @@ package secec
 //@   fresh result0
 //@
 //@ func NewPrivateKeyFromScalar
+//@   ct
 //@   props C10 C18
 //@   split case val(s) == 0
 //@   ensures val(s) == 0 ==> result0 == nil && result1 != nil
@@ -113,6 +119,9 @@ package secec
 //@   fresh result0
 //@
 //@ func NewPrivateKey
+//@   ct
+//@   declassify call NewScalarFromBytes: rejecting an out-of-range key reveals only that the input was invalid
+//@   declassify call IsZero: as above
 //@   props C10 C18
 //@   split case len(key) == 32 && os2ipv(key) >= 1 && os2ipv(key) < N
 //@   ensures (len(key) == 32 && os2ipv(key) >= 1 && os2ipv(key) < N) <==> (result1 == nil)
@@ -121,16 +130,20 @@ package secec
 //@   fresh result0
 //@
 //@ func (*PrivateKey).Bytes
+//@   ct
 //@   props C10 C18
 //@   ensures len(result) == 32 && os2ip(result) == lift(val(k.scalar))
 //@   fresh result
 //@
 //@ func (*PrivateKey).Scalar
+//@   ct
 //@   props C10 C18
 //@   ensures val(result) == val(k.scalar)
 //@   fresh result
 //@
 //@ func (*PrivateKey).ECDH
+//@   ct
+//@   public remote
 //@   props C10 C17
 //@   ensures result1 == nil && len(result0) == 32 && os2ip(result0) == lift(affx(smul(val(k.scalar), abs(remote.point))))
 //@   using smul_nonzero(val(k.scalar), abs(remote.point))
@@ -205,6 +218,10 @@ package secec
 //@   ensures (!isnil(opts) && opts.Encoding != 0 && opts.Encoding != 1 && opts.Encoding != 2) ==> !result
 //@
 //@ func sampleRandomScalar
+//@   ct
+//@   declassify err: whether the entropy source failed is public
+//@   declassify call SetBytes: the accept/reject decision of rejection sampling; a rejected candidate is discarded, and the decision for the accepted one is the fixed outcome 'in range'
+//@   declassify call IsZero: as above (candidate zero is rejected)
 //@   props C09 C08
 //@   requires !isnil(rand)
 //@   split case result1 == nil
@@ -220,6 +237,9 @@ package secec
 //@   fresh result0
 //@
 //@ func mitigateDebianAndSony
+//@   ct
+//@   public ctx
+//@   declassify err: whether the entropy source failed is public
 //@   props C09 C08
 //@   option digits
 //@   split dyn rand sentinelReaderRFC6979 value
@@ -233,6 +253,13 @@ package secec
 //@   modifies rdstate(rand), rdstate(osrand())
 //@
 //@ func sign
+//@   ct
+//@   public hBytes
+//@   declassify err: whether hashing-to-scalar, the entropy source or the sampler failed is public
+//@   declassify call IsZero: r and s are the published signature; retrying on zero reveals nothing about the final nonce
+//@   declassify call IsGreaterThanHalfN: s is published; its normalisation bit is public
+//@   declassify call NewScalarFromBytes: r = x(R) mod n is published, and so is the reduction bit (recovery id)
+//@   declassify call SplitUncompressedPoint: x(R) and the parity of y(R) are published (r and the recovery id)
 //@   props C08 C09
 //@   requires !isnil(d)
 //@   ensures (!isnil(rand) && !isdyn(rand, sentinelReaderRFC6979) && result3 == nil) ==> rdstate(rand) == rdnext(old(rdstate(rand)), 32)
@@ -259,6 +286,8 @@ package secec
 //@   modifies rdstate(rand), rdstate(osrand())
 //@
 //@ func (*PrivateKey).SignRaw
+//@   ct
+//@   public digest
 //@   props C08
 //@   split case result3 == nil
 //@   ensures len(digest) < 32 ==> result3 != nil
@@ -278,6 +307,12 @@ package secec
 //@   fresh result
 //@
 //@ func (*PrivateKey).Sign
+//@   ct
+//@   public digest, opts
+//@   declassify err: failure is public
+//@   declassify r: the signature is the published output
+//@   declassify s: the signature is the published output
+//@   declassify v: the recovery id is published
 //@   props C08
 //@   split dyn opts ECDSAOptions
 //@   split case result1 == nil
@@ -326,9 +361,11 @@ package secec
 //@   ensures result
 //@
 //@ type drbgRFC6979
+//@   public needUpdate
 //@   inv len(self.v) == 32 && len(self.k) == 32
 //@
 //@ func (*drbgRFC6979).updateV
+//@   ct
 //@   props C09
 //@   option digits
 //@   ensures len(drbg.v) == 32 && os2ip(drbg.v) == hmac_v(old(os2ip(drbg.k)), old(os2ip(drbg.v)))
@@ -336,6 +373,7 @@ package secec
 //@   modifies drbg.v, drbg.v[:]
 //@
 //@ func (*drbgRFC6979).updateK
+//@   ct
 //@   props C09
 //@   option digits
 //@   ensures len(drbg.k) == 32 && os2ip(drbg.k) == hmac_vo(old(os2ip(drbg.k)), old(os2ip(drbg.v)), 0)
@@ -343,6 +381,7 @@ package secec
 //@   modifies drbg.k, drbg.k[:]
 //@
 //@ func (*drbgRFC6979).Read
+//@   ct
 //@   props C09
 //@   option digits
 //@   panics len(b) != 32
@@ -354,6 +393,7 @@ package secec
 //@   modifies drbg.k, drbg.k[:], drbg.v, drbg.v[:], drbg.needUpdate, b
 //@
 //@ func newDrbgRFC6979
+//@   ct
 //@   props C09
 //@   option digits
 //@   noalias x, e
